@@ -87,6 +87,7 @@ type SigSpec struct {
 	Trailer  string // x-amz-checksum-… name for trailer modes ("" = none declared)
 	Chunks   []int  // chunk sizes for streaming modes (the rest goes into a last chunk)
 	AltFrame bool   // put a blank line between the zero chunk and the trailer section
+	TEChunk  bool   // send the body with Transfer-Encoding: chunked (length unknown to the signer) instead of Content-Length
 	Presign  bool   // credentials in the query string (presigned URL), with whatever payload Mode says
 	Expires  int    // presign: X-Amz-Expires
 	Cred     SigCred
@@ -112,10 +113,37 @@ type Wire struct {
 	Target  string // request-target: escaped path [ "?" raw query ]
 	Headers [][2]string
 	Body    []byte
+	// Decoded, when non-nil, is the body net/http hands to handlers after removing its own
+	// Transfer-Encoding: chunked framing (Body then holds the framed bytes that go on the wire).
+	Decoded []byte
+}
+
+// TEFrame is HTTP/1.1 chunked transfer coding of b in one chunk (what http.Request.Write emits
+// for a body of unknown length is equivalent).
+func TEFrame(b []byte) []byte {
+	var out bytes.Buffer
+	if len(b) > 0 {
+		fmt.Fprintf(&out, "%x\r\n", len(b))
+		out.Write(b)
+		out.WriteString("\r\n")
+	}
+	out.WriteString("0\r\n\r\n")
+	return out.Bytes()
+}
+
+// HandlerBody is the request body as a handler reads it.
+func (w *Wire) HandlerBody() []byte {
+	if w.Decoded != nil {
+		return w.Decoded
+	}
+	return w.Body
 }
 
 func (w *Wire) Clone() *Wire {
 	c := &Wire{Method: w.Method, Target: w.Target, Body: append([]byte(nil), w.Body...)}
+	if w.Decoded != nil {
+		c.Decoded = append([]byte{}, w.Decoded...)
+	}
 	c.Headers = append([][2]string(nil), w.Headers...)
 	return c
 }
@@ -399,6 +427,10 @@ func (s *SigSpec) Build() (*Signed, error) {
 	} else {
 		req.ContentLength = int64(len(s.Body))
 	}
+	teChunk := s.TEChunk && enc == nil && len(s.Body) > 0
+	if teChunk {
+		req.ContentLength = -1 // the signer then has no content-length to sign
+	}
 
 	send := req
 	if presigned {
@@ -450,6 +482,9 @@ func (s *SigSpec) Build() (*Signed, error) {
 		body = enc.Encode(s.Body)
 	}
 	send.ContentLength = int64(len(body))
+	if teChunk {
+		send.ContentLength = -1
+	}
 	if len(body) > 0 {
 		send.Body = io.NopCloser(bytes.NewReader(body))
 	} else {
@@ -460,6 +495,9 @@ func (s *SigSpec) Build() (*Signed, error) {
 		return nil, err
 	}
 	out.Wire = parseWire(buf.Bytes())
+	if teChunk {
+		out.Wire.Decoded = append([]byte{}, body...)
+	}
 	return out, nil
 }
 
@@ -677,7 +715,7 @@ func SendWire(out *Out, l *Loop, label, mode string, w *Wire, signer string, pay
 	}
 	out.Line("req %s %s %d %s %s %d", label, mode, now, HexS(signer), Hex(payload), B2i(sdk))
 	if seen.HasView {
-		PrintView(out, seen.View, w.Body)
+		PrintView(out, seen.View, w.HandlerBody())
 	} else {
 		out.Line("noview")
 	}
